@@ -500,7 +500,46 @@ def _eq_correlation(ctx, f: FunctionInfo, var: str, T: str, raise_stmt, case: st
     if not nid:
         return False, "statement not in CFG"
     dom = g.dominating_edges(nid[0])
-    if not any(l == "F" and txt(g.nodes[c].ast) in eqs for c, _, l in dom):
+    neqs = {"%s != %s" % (txt(X), txt(Y)), "%s != %s" % (txt(Y), txt(X))}
+
+    def differ(edges, eq_texts, neq_texts, gg) -> bool:
+        return any((l == "F" and txt(gg.nodes[c].ast) in eq_texts) or (l == "T" and txt(gg.nodes[c].ast) in neq_texts) for c, _, l in edges)
+
+    here = differ(dom, eqs, neqs, g)
+    if not here:
+        # the test may guard every CALL of this (private) function instead:  if a.line != b.line: return f(a, b)
+        import copy as _copy
+        sites = [(q, nid_) for (q, nid_), tgs in eng.call_targets.items() if f.qual in tgs and q != f.qual]
+        ok_sites = 0
+        for q, cid in sites:
+            caller = eng.fn_by_qual.get(q)
+            if caller is None:
+                continue
+            call = next((x for x in walk_local(caller.node) if id(x) == cid), None)
+            if call is None or not isinstance(call, ast.Call) or len(call.args) != len(f.params) or call.keywords:
+                break
+            amap = dict(zip(f.params, call.args))
+
+            class Sub(ast.NodeTransformer):
+                def visit_Name(self, n):
+                    if n.id in amap and isinstance(n.ctx, ast.Load):
+                        return _copy.deepcopy(amap[n.id])
+                    return n
+            X2, Y2 = txt(Sub().visit(_copy.deepcopy(X))), txt(Sub().visit(_copy.deepcopy(Y)))
+            gc = ctx.cfg(caller)
+            par = parents(caller.node)
+            st = call
+            while id(st) in par and not isinstance(st, ast.stmt):
+                st = par[id(st)]
+            cn = gc.nodes_of(st)
+            if cn and differ(gc.dominating_edges(cn[0]), {"%s == %s" % (X2, Y2), "%s == %s" % (Y2, X2)},
+                             {"%s != %s" % (X2, Y2), "%s != %s" % (Y2, X2)}, gc):
+                ok_sites += 1
+            else:
+                break
+        else:
+            here = bool(sites) and ok_sites == len(sites) and f.name.startswith("_")
+    if not here:
         rx, ry = root_name(X), root_name(Y)
         for c, _, l in dom:
             nm = {n.id for n in ast.walk(g.nodes[c].ast) if isinstance(n, ast.Name)}
